@@ -8,12 +8,13 @@
 (* the recorded proof bag - parsed with Boc!Parse and hashed with Cells          *)
 (* (Prim!Sha256) by the specification itself - is the proof the specification    *)
 (* requires for THIS request's prune set / key (ProofVerdict, WalkVerdict).      *)
-(*  {"k":"Reset","kind":"walk"|"dict","src","mode","n":8|0,"cells":[..],"roots":[0]}                                  *)
+(*  {"k":"Reset","kind":"walk"|"dict","src","mode","n":8|0,"cells":[..],"roots":[0],"orig":{"cells","roots"}?}        *)
+(*     orig: the source is the tree under an earlier proof of the level-0 tree orig (two-step proofs)                    *)
 (*  {"k":"Cursor","c":id}  {"k":"Ref","c":id,"i":0}  {"k":"Up","c":id}  {"k":"Prune","c":id}                            *)
 (*  {"k":"Create","c":id,"err":"","panic":"","proof":"hex","exphash":hex?}                                              *)
 (*  {"k":"Key","key":"0101..","err":""|"e","panic":"","val":{"cells":[..],"roots":[0]},"proof":"hex","exp":{found,v}?}  *)
 (* A rejected event prints <<"NOTE", line, clause, class>>; class names the     *)
-(* input class: twin / valueref (see KeyClass), leak (every pruned branch that   *)
+(* input class: twin / valueref (see KeyClass), partial (source has pruned branches), leak (every pruned branch that   *)
 (* this request does not account for was pruned by an EARLIER request of the     *)
 (* same prover), plain.  Clauses starting with "domain:" mean the harness or the *)
 (* specification is inconsistent (never a verdict on the code).                  *)
@@ -42,14 +43,30 @@ Reject(reason, class) == PrintT(<<"NOTE", l, reason, class>>) /\ FALSE
 \* Heavy evaluation is kept in pure operators (XOutcome) whose result reaches the action as an operator argument:
 \* TLC evaluates such an argument once, whereas a LET around primed conjuncts is re-evaluated at every use (measured:
 \* 39 s instead of 0.3 s for a 750-cell dictionary).
+\* A source may be a partial view (the tree under an earlier proof); then the Reset line also carries the ORIGINAL level-0
+\* tree ("orig"), the source must be a view of it (same level-0 hash / depth at the root, pruned branches right), and the
+\* abstract dictionary is that of the original.  "skip:" = the source handed to the prover is itself wrong (the proof it
+\* came from is judged in its own segment); nothing can be said about this prover.
 ResetOutcome(e) ==
   LET T0 == FromJson(e.cells)  R0 == e.roots[1] + 1 IN
-  IF ~(LevelZero(T0) /\ WellFormed(T0)) THEN [why |-> "domain:tree"]
-  ELSE LET D == IF e.n > 0 THEN DecEdge(T0, R0, e.n, <<>>) ELSE [ok |-> TRUE, items |-> <<>>] IN
-       \* the abstract dictionary decides presence; Lookup (used per request) must agree with it on every item
-       IF ~D.ok \/ \E i \in 1..Len(D.items) : LET lk == Lookup(T0, R0, e.n, D.items[i].k) IN ~(lk.ok /\ lk.found /\ lk.v = D.items[i].v)
-         THEN [why |-> "domain:not-a-dictionary"]
-       ELSE [why |-> "", T |-> T0, IT |-> InfoTable(T0), R |-> R0, present |-> {BitsToStr(D.items[i].k) : i \in 1..Len(D.items)}]
+  IF ~SourceOK(T0) THEN [why |-> IF Has(e, "orig") THEN "skip:source-not-well-formed" ELSE "domain:tree"]
+  ELSE IF Partial(T0) /\ ~Has(e, "orig") THEN [why |-> "domain:partial-source-without-original"]
+  ELSE
+  LET hasO == Has(e, "orig")
+      TO == IF hasO THEN FromJson(e.orig.cells) ELSE T0
+      RO == IF hasO THEN e.orig.roots[1] + 1 ELSE R0
+      I0 == InfoTable(T0)
+  IN IF hasO /\ ~(LevelZero(TO) /\ WellFormed(TO)) THEN [why |-> "domain:tree"]
+     ELSE IF hasO /\ ~(LET IO == InfoTable(TO) IN I0[R0].h[1] = IO[RO].h[1] /\ I0[R0].d[1] = IO[RO].d[1] /\ ViewOf(T0, R0, TO, IO, RO))
+       THEN [why |-> "skip:source-is-not-a-view-of-the-original"]
+     ELSE LET D == IF e.n > 0 THEN DecEdge(TO, RO, e.n, <<>>) ELSE [ok |-> TRUE, items |-> <<>>] IN
+          \* the abstract dictionary decides presence; Lookup (used per request) must agree with it on every item whose
+          \* path the source has
+          IF ~D.ok \/ \E i \in 1..Len(D.items) : LET lk == Lookup(T0, R0, e.n, D.items[i].k) IN
+                                                 IF lk.ok THEN ~(lk.found /\ lk.v.b = D.items[i].v.b /\ Len(lk.v.r) = Len(D.items[i].v.r))
+                                                 ELSE ~(hasO /\ lk.why = "pruned")
+            THEN [why |-> "domain:not-a-dictionary"]
+          ELSE [why |-> "", T |-> T0, IT |-> I0, R |-> R0, present |-> {BitsToStr(D.items[i].k) : i \in 1..Len(D.items)}]
 ResetStep(o) == IF o.why # "" THEN Reject(o.why, "plain")
                 ELSE /\ TLCSet(N + seg, [T |-> o.T, IT |-> o.IT]) /\ R' = o.R /\ n' = E.n
                      /\ present' = o.present /\ sess' = <<>> /\ hist' = {}
@@ -74,7 +91,7 @@ CreateOutcome(e, tT, tIT, tR, ss, hh) ==
            \* prunes of earlier requests and of the other sessions of this prover
            foreign == hh \cup UNION {ss[c2].ps : c2 \in DOMAIN ss \ {e.c}}
            leak == wv.reason = "pruned-but-not-asked" /\ wv.extra \subseteq foreign
-       IN IF wv.reason # "" THEN [reason |-> wv.reason, class |-> IF leak THEN "leak" ELSE "plain"]
+       IN IF wv.reason # "" THEN [reason |-> wv.reason, class |-> IF leak THEN "leak" ELSE IF Partial(tT) THEN "partial" ELSE "plain"]
           \* S->C: under the occurrence reading the bag is the very proof the generator computed
           ELSE IF Has(e, "exphash") /\ wv.sem = "occurrence" /\ BytesToHex(wv.hash) # e.exphash THEN [reason |-> "domain:spec-inconsistent", class |-> "plain"]
           ELSE [reason |-> "", class |-> "", sem |-> wv.sem, add |-> wv.psp \cup PS]
@@ -88,6 +105,8 @@ KeyOutcome(e, tT, tIT, tR, nn, pres, hh) ==
       isPresent == e.key \in pres
       Out(r, c) == [reason |-> r, class |-> c, add |-> {}]
   IN IF nn = 0 \/ Len(k) # nn THEN Out("domain:key-width", "plain")
+     \* the key's path runs into a pruned branch of a partial source: the statement says nothing (only: no panic)
+     ELSE IF ~lk.ok /\ Partial(tT) /\ lk.why = "pruned" THEN (IF e.panic # "" THEN Out("panic", "partial") ELSE Out("", ""))
      ELSE IF ~lk.ok \/ lk.found # isPresent THEN Out("domain:spec-inconsistent", "plain")
      ELSE IF Has(e, "exp") /\ (e.exp.found # isPresent \/ (isPresent /\ e.exp.v # BitsToStr(lk.v.b))) THEN Out("domain:spec-inconsistent", "plain")
      ELSE IF e.panic # "" THEN Out("panic", "plain")
@@ -106,7 +125,8 @@ KeyOutcome(e, tT, tIT, tR, nn, pres, hh) ==
                          \/ pv.reason = "value:refs" /\ \E q \in pv.psp \cap hh : PathPrefix(PathOf(lk), q)
              \* leak first: an earlier ACCEPTED request pruned that very occurrence, i.e. it passed the same fork on the
              \* other side and its own path survived - equal cells at that fork are not what hides the key
-             IN IF pv.reason # "" THEN Out(pv.reason, IF leak THEN "leak" ELSE KeyClass(tT, tIT, tR, nn, k))
+                 kc == KeyClass(tT, tIT, tR, nn, k)
+             IN IF pv.reason # "" THEN Out(pv.reason, IF leak THEN "leak" ELSE IF kc = "plain" /\ Partial(tT) THEN "partial" ELSE kc)
                 ELSE [reason |-> "", class |-> "", add |-> pv.psp]
 KeyStep(o) == IF o.reason # "" THEN Reject(o.reason, o.class) ELSE hist' = hist \cup o.add
 TKey == E.k = "Key" /\ UNCHANGED <<R, n, present, sess>> /\ KeyStep(KeyOutcome(E, T, IT, R, n, present, hist))
